@@ -249,6 +249,15 @@ class L:
         assert base == 10
         return self.a
 
+    def __eq__(self, o):
+        try:
+            return self.a == tol(o).a
+        except TypeError:
+            return NotImplemented
+
+    def __hash__(self):
+        return hash(self.a)
+
     def log10_float(self):
         """the float exponent this stands for"""
         a = self.a
@@ -500,7 +509,7 @@ def draw_ints(rng, inputs, size_dict, zero_mode):
         if positive:
             vals = [rng.randint(1, 4) for _ in range(n)]
         else:
-            vals = [rng.choice([-3, -2, -1, 1, 2, 3, 0]) for _ in range(n)]
+            vals = [rng.choice([-3, -2, -1, 1, 2, 3] + ([0] if rng.random() < 0.15 else [])) for _ in range(n)]
         arrs.append(np.array(vals, dtype=object).reshape(shape))
     if zero_mode:
         cands = [(i, k) for i, t in enumerate(inputs) for k, ix in enumerate(t) if ix in zero_mode and size_dict[ix] > 1]
@@ -850,6 +859,49 @@ def probe_known(ctx):
                      key="strip-output-chunks-tuple-concat")
 
 
+def corpus_cases(ctx):
+    """minimised past failures (corpus/C19/*.json), run first on the float implementation against the oracle"""
+    import glob
+    import json
+    import os
+    import cotengra as ctg
+    import numpy as np
+    from vlib.core import VERIF
+    for fn in sorted(glob.glob(os.path.join(VERIF, "corpus", "C19", "*.json"))):
+        c = json.load(open(fn))
+        inputs = [tuple(t) for t in c["inputs"]]
+        output = tuple(c["output"])
+        ints = [np.array(a, dtype=object) for a in c["int_arrays"]]
+        scales = c["scales"]
+        farrs = to_float_arrays(ints, scales)
+        ref, amax = exact_reference(inputs, output, c["size_dict"], ints, scales)
+        ctx.count("corpus")
+        try:
+            with warnings.catch_warnings():
+                warnings.simplefilter("ignore")
+                tree = ctg.ContractionTree.from_path(inputs, output, c["size_dict"], path=[tuple(p) for p in c["path"]])
+                for ix in c["sliced"]:
+                    tree.remove_ind_(ix)
+                if c.get("call") == "gen_output_chunks":
+                    complaint = None
+                    for ch, okey in tree.gen_output_chunks(farrs, with_key=True, strip_exponent=True):
+                        cref, camax = exact_reference(inputs, output, c["size_dict"], ints, scales, fixed=okey)
+                        if not (isinstance(ch, tuple) and len(ch) == 2):
+                            complaint = "chunk %r is not a (mantissa, exponent) pair: %r" % (okey, ch)
+                            break
+                        complaint = judge_value(ch[0], ch[1], cref, camax)
+                        if complaint:
+                            break
+                else:
+                    o = tree.contract(farrs, strip_exponent=True, check_zero=c.get("check_zero", False))
+                    complaint = judge_value(o[0], o[1], ref, amax)
+        except Exception as ex:  # noqa
+            complaint = "raised %r" % (ex,)
+        if complaint:
+            ctx.fail("corpus case %s: %s" % (os.path.basename(fn), complaint), dict(c, complaint=complaint),
+                     key=c.get("key"))
+
+
 def interface_cases(ctx, rng, n):
     """einsum / array_contract / single tensor / gen_output_chunks, judged by the oracle"""
     import cotengra as ctg
@@ -942,6 +994,7 @@ def run(ctx):
         return
     rng = ctx.rng
     probe_known(ctx)
+    corpus_cases(ctx)
     cases, records = [], []
     for ci in range(ctx.n(160, 2500)):
         run_case(ctx, ci, rng, cases, records)
